@@ -697,6 +697,7 @@ func introType(m map[string]interface{}) *model.TypeRef {
 func runC17(c *run.Ctx) {
 	defer c17BuiltinDirectiveRedefined(c)
 	defer c17BuiltTypes(c)
+	defer c17AcceptedMeansDescribed(c)
 	c.Rule = "generated schemas (every kind, wrappers to depth 4, deprecations with and without reason on fields - also interface fields - and enum values, descriptions, defaults, directives with locations and " +
 		"arguments, 1-3 root operation types, custom root names); oracle: (a) the standard full introspection query (ofType x7) with includeDeprecated true and false is compared member by member with the " +
 		"model (lists keyed by name), (b) generated introspection documents (random sub-selections, aliases, fragments, includeDeprecated literal/variable/default, __type by literal and variable, unknown names) " +
@@ -1060,7 +1061,7 @@ func c17NestedDeprecation(ms *model.Schema, root *ggql.Root) string {
 // union, an enum, an input, a directive) is described by introspection exactly like the same schema read from a
 // document - possible types of the interface and the union included.
 func c17BuiltTypes(c *run.Ctx) {
-	const sdl = "type Query { a: Int }\ninterface ZzNode { x: Int }\ntype ZzThing implements ZzNode { f(arg: Int): Int x: Int }\nenum ZzColor { RED }\ninput ZzIn { n: Int }\nunion ZzU = ZzThing\ndirective @zzDir(da: Int) on FIELD\n"
+	const sdl = "type Query { a: Int }\ninterface ZzNode { x: Int }\ntype ZzThing implements ZzNode { f(arg: Int): Int x: Int old: Int @deprecated(reason: \"gone\") }\nenum ZzColor { RED BLUE @deprecated(reason: \"why\") }\ninput ZzIn { n: Int }\nunion ZzU = ZzThing\ndirective @zzDir(da: Int) on FIELD\n"
 	for _, bk := range []string{"reflect", "iface", "any"} {
 		parsed, err := c17Load(sdl, bk)
 		if err != nil {
@@ -1089,6 +1090,68 @@ func c17BuiltTypes(c *run.Ctx) {
 				c.Violation("c17-full", map[string]interface{}{"backend": bk, "diag": fmt.Sprintf("introspecting a schema built with AddTypes panics: %v", pv)})
 			} else if a != b {
 				c.Violation("c17-full", map[string]interface{}{"backend": bk, "sdl": sdl, "diag": "the schema built with AddTypes is described differently from the same schema read from a document: " + firstDiffLong(a, b)})
+			}
+		}
+	}
+}
+
+// c17AcceptedMeansDescribed: whatever a root ACCEPTS is described. A definition whose name is already taken by a type of
+// another kind (a scalar the root has from an earlier load, from AddTypes, or built in) is either refused or, if the load
+// is accepted, the type it defines is what __type reports under that name.
+func c17AcceptedMeansDescribed(c *run.Ctx) {
+	cases := []struct {
+		how   string
+		first func(root *ggql.Root) error
+		later string
+		name  string
+	}{
+		{"scalar from an earlier document", func(root *ggql.Root) error { return root.ParseString("scalar Stamp\ntype Query { s: Stamp }") }, "type Stamp { zz: Int }", "Stamp"},
+		{"scalar added with AddTypes", func(root *ggql.Root) error {
+			if err := root.ParseString("type Query { a: Int }"); err != nil {
+				return err
+			}
+			return root.AddTypes(&ggql.Scalar{Base: ggql.Base{N: "Stamp"}})
+		}, "enum Stamp { A B }", "Stamp"},
+		{"built-in scalar", func(root *ggql.Root) error { return root.ParseString("type Query { a: Int }") }, "type Time { zz: Int }\nextend type Query { t: Time }", "Time"},
+		{"built-in scalar, one document", func(root *ggql.Root) error { return nil }, "type Query { t: Int64 }\ninput Int64 { zz: Int }", "Int64"},
+		{"scalar twice (the second definition is skipped by design)", func(root *ggql.Root) error { return root.ParseString("scalar Stamp\ntype Query { s: Stamp }") }, "scalar Stamp", "Stamp"},
+	}
+	for ci, cs := range cases {
+		for _, bk := range []string{"reflect", "any"} {
+			root, err := c17Load("", bk)
+			if err == nil {
+				err = cs.first(root)
+			}
+			if err != nil {
+				c.Violation("c17-full", map[string]interface{}{"diag": "first step refused: " + err.Error(), "how": cs.how})
+				continue
+			}
+			var lerr error
+			var res map[string]interface{}
+			pv, _ := run.Protect(func() {
+				lerr = root.ParseString(cs.later)
+				res = root.ResolveString(fmt.Sprintf(`{ __type(name: %q) { kind name fields { name } enumValues { name } inputFields { name } } }`, cs.name), "", nil)
+			})
+			c.Eval(fmt.Sprintf("accepted-means-described|%d|%s", ci, bk), true)
+			c.Count("full_queries_compared", 1)
+			if pv != nil {
+				c.Violation("c17-full", map[string]interface{}{"how": cs.how, "later_load": cs.later, "diag": fmt.Sprint("panic: ", pv)})
+				continue
+			}
+			if lerr != nil || ci == len(cases)-1 {
+				continue // refused (or the deliberate skip of a repeated scalar): nothing new to describe
+			}
+			data, _ := ref.Canon(res["data"]).(map[string]interface{})
+			tm, _ := data["__type"].(map[string]interface{})
+			members := 0
+			for _, k := range []string{"fields", "enumValues", "inputFields"} {
+				if l, isL := tm[k].([]interface{}); isL {
+					members += len(l)
+				}
+			}
+			if tm == nil || tm["kind"] == "SCALAR" || members == 0 {
+				c.Violation("c17-full", map[string]interface{}{"backend": bk, "how": cs.how, "later_load": cs.later,
+					"diag": fmt.Sprintf("the document was accepted but __type(name: %q) does not describe what it defines: %s", cs.name, ref.Render(tm))})
 			}
 		}
 	}
